@@ -117,7 +117,7 @@ class FixedShapeMapParser(ShapeMapParser):
         :return:
         """
         line = self._remove_trailing_comma(line)
-        pieces = line.split("@")
+        pieces = line.rsplit("@", 1)  # the label never contains "@"; an IRI or a query in the selector may
         if len(pieces) != 2:
             raise ValueError("There must be exactly a '@' char for each couple selector-label")
         return ShapeMapItem(shape_label=self._label_parser.parse_shape_map_label(pieces[1].strip()),
